@@ -13,12 +13,13 @@ import tempfile
 from harness import coqfmt as cf
 
 PROP = "C04"
-COQ = dict(imports=["Spec.C04"], in_ty="ginput", out_ty="output", corr="corr_C04g", decide="check_C04g",
-           inclass="inclass_C04g", model="txn_run_g")
+COQ = dict(imports=["Spec.C04"], in_ty="uinput", out_ty="output", corr="corr_C04u", decide="check_C04u",
+           inclass="inclass_C04u", model="run_u")
 THEOREMS = ["C04_decider_sound", "C04_main", "C04_version_rows", "C04_failed_not_recorded", "C04_all_or_nothing",
             "C04_per_migration", "C04_nontransactional", "C04_success", "C04_exception_kind_irrelevant",
             "C04_inconsistent_refuted", "C04g_decider_sound", "C04g_main", "C04_rows_are_heads",
-            "C04_failed_upgrade_not_implied", "C04_failed_downgrade_still_implied"]
+            "C04_failed_upgrade_not_implied", "C04_failed_downgrade_still_implied", "C04_begin_transaction_table",
+            "C04_atomicity_table", "C04u_main", "C04u_decider_sound", "C04_decider_complete"]
 CASE_TIMEOUT = 60
 TRUSTED = [
     "the database small-step semantics of Model/Txn.v (TxDDL, ImplicitCommitDDL, Pysqlite) and the SQLAlchemy 2.0 autobegin / "
@@ -178,6 +179,27 @@ def _template_cases(revs, tag, rot):
             yield c
 
 
+def _sql_cases(revs, tag, rot):
+    """--sql runs against the same database file: whatever fails, the database must not change"""
+    for c in _cases_for(revs, tag, False, rot):
+        if c["kind"] == "pysqlite" and c["external"] is False:
+            c = dict(c)
+            c["sql"] = True
+            yield c
+
+
+def _dup_cases(revs, tag):
+    """the bookkeeping itself raises: the version table (created without primary key) holds the current revision twice,
+    so the UPDATE / DELETE of update_to_step matches two rows and HeadMaintainer raises CommandError"""
+    n = len(revs)
+    for cmd, frm, to in (("upgrade", 1, n), ("downgrade", n, 0), ("downgrade", n, n - 1)):
+        if frm == to or frm < 1:
+            continue
+        for kind, tddl, tpm, ext in itertools.product(["pysqlite", "txddl"], [True, False], [False, True], [False, True]):
+            yield {"kind": kind, "tddl": tddl, "tpm": tpm, "external": ext, "cmd": cmd, "pre": "r%d" % frm,
+                   "target": ("r%d" % to) if to > 0 else "base", "revs": revs, "fail": None, "exc": "exc", "tag": tag, "dup": True}
+
+
 def _rand_history(rnd):
     n = rnd.randint(1, 5)
     lays = []
@@ -206,6 +228,10 @@ def generate(tier, seed):
         yield from _template_cases(_mk_history(lays), tag + "-template", rot)
     for name in BRANCHED:
         yield from _branched_cases(name, rot)
+    for lays, tag in (([P[0], P[1]], "n2"), ([A1, P[0]], "n2-auto"), ([P[1], A1], "n2-auto")):
+        yield from _sql_cases(_mk_history(lays), tag + "-sql", rot)
+    for lays, tag in (([P[0], P[1]], "n2"), ([P[2], A1], "n2-auto"), ([P[0], A1, P[3]], "n3-auto")):
+        yield from _dup_cases(_mk_history(lays), tag + "-dup")
     if tier == "thorough":
         rnd = random.Random(seed * 7919 + 4)
         for _ in range(60):
@@ -257,13 +283,19 @@ def _cb(ctx, step, heads, run_args):
 
 def _go(connection):
     context.configure(connection=connection, transaction_per_migration=a["tpm"], transactional_ddl=a["tddl"],
-                      on_version_apply=_cb)
+                      on_version_apply=_cb, version_table_pk=a.get("pk", True))
     with context.begin_transaction():
         context.run_migrations()
 
 
 try:
-    if a["external"]:
+    if context.is_offline_mode():
+        # --sql: the script goes to config.output_buffer; no connection is made
+        context.configure(url=a["url"], literal_binds=True, transaction_per_migration=a["tpm"],
+                          transactional_ddl=a["tddl"], on_version_apply=_cb)
+        with context.begin_transaction():
+            context.run_migrations()
+    elif a["external"]:
         with eng.begin() as connection:
             _go(connection)
     else:
@@ -427,7 +459,8 @@ def run_case(h):
                 c = Config()
                 c.set_main_option("script_location", d)
             c.attributes.update(url=url, kind=h["kind"], tpm=h["tpm"], tddl=h["tddl"], external=h["external"],
-                                fail=fail, exc=exc_cls)
+                                fail=fail, exc=exc_cls, pk=not h.get("dup"))
+            c.output_buffer = io.StringIO()
             return c
 
         # set-up: bring the database to the starting revision (a run without failure, default settings)
@@ -445,6 +478,12 @@ def run_case(h):
                 c0 = cfg(None)
             c0.attributes.update(tpm=True, tddl=None, external=False)
             command.upgrade(c0, h["pre"])
+        if h.get("dup"):
+            # a second copy of every current row (the table was created without primary key)
+            con = sqlite3.connect(path)
+            con.execute("INSERT INTO alembic_version SELECT version_num FROM alembic_version")
+            con.commit()
+            con.close()
         before = _state(url)
 
         up = h["cmd"] == "upgrade"
@@ -465,11 +504,20 @@ def run_case(h):
             j, where, p = h["fail"]
             fail = ("r%d" % j, "up" if up else "dn", "cb" if where == "cb" else p)
         raised = None
+        sql = bool(h.get("sql"))
+        spec = h["target"]
+        if sql:
+            spec = "%s:%s" % (h["pre"], h["target"]) if (h["pre"] is not None or not up) else h["target"]
+        from alembic import util as _util
         try:
             if up:
-                command.upgrade(cfg(fail), h["target"])
+                command.upgrade(cfg(fail), spec, sql=sql)
             else:
-                command.downgrade(cfg(fail), h["target"])
+                command.downgrade(cfg(fail), spec, sql=sql)
+        except _util.CommandError:
+            if not h.get("dup"):
+                raise
+            raised = "CommandError"           # HeadMaintainer: the bookkeeping statement did not match exactly one row
         except Boom:
             raised = "Boom"
         except KeyboardInterrupt:
@@ -495,17 +543,19 @@ def run_case(h):
                 slot = _slots(body)[h["fail"][2]]
         steps.append("mkMstep %d %s %s %s" % (j, cf.boolean(isup), _coq_body(body, slot), cf.boolean(cb)))
     eff_tddl = bool(h["tddl"])          # SQLiteImpl.transactional_ddl = False unless overridden
-    cin = "(mkGin %s %s %s %s %s %s %s %s)" % (
+    cin = "(mkUin (mkGin %s %s %s %s %s %s %s %s) %s)" % (
         cf.graph(graph), "TxDDL" if h["kind"] == "txddl" else "Pysqlite", cf.boolean(eff_tddl), cf.boolean(h["tpm"]),
         cf.boolean(h["external"]), cf.lst(steps), _db(before),
-        {"exc": "ExcException", "kbd": "ExcKeyboardInterrupt", "exit": "ExcSystemExit"}[h.get("exc", "exc")])
-    ran = h["fail"] is not None and any(j == h["fail"][0] for j, _ in order)
+        {"exc": "ExcException", "kbd": "ExcKeyboardInterrupt", "exit": "ExcSystemExit"}[h.get("exc", "exc")],
+        cf.boolean(sql))
+    ran = bool(h.get("dup")) or h["fail"] is not None and any(j == h["fail"][0] for j, _ in order)
     cout = "(mkOut %s %s)" % (_db(after), cf.boolean(raised is not None))
     one = h["external"] or (eff_tddl and not h["tpm"])
     shape = "%s%s%s-%s-%s%s-%s" % ("generic-template-" if h.get("env") == "template" else "",
-                                   "branched-" if h["tag"].startswith("branched") else "", h["kind"], h["cmd"],
+                                   ("branched-" if h["tag"].startswith("branched") else "") + ("sql-" if sql else "") +
+                                   ("dup-rows-" if h.get("dup") else ""), h["kind"], h["cmd"],
                                    "one-txn" if one else "per-migration", "-autocommit" if has_auto else "",
-                               "ok" if not ran else ("fail-cb" if h["fail"][1] == "cb" else "fail-body") +
+                               "ok" if not ran else ("fail-bookkeeping" if h["fail"] is None else "fail-cb" if h["fail"][1] == "cb" else "fail-body") +
                                ("" if h.get("exc", "exc") == "exc" else "-BaseException"))
     return dict(cin=cin, cout=cout, out={"before": before, "after": after, "raised": raised},
                 nontrivial=ran, shape=shape)
